@@ -16,6 +16,7 @@ import (
 
 	"github.com/kubewharf/kubebrain/pkg/backend"
 	"github.com/kubewharf/kubebrain/pkg/metrics"
+	"github.com/kubewharf/kubebrain/pkg/server/etcd"
 	"github.com/kubewharf/kubebrain/pkg/storage"
 
 	"kbverif/lib"
@@ -145,6 +146,8 @@ func (e *holdErr) Is(target error) bool {
 
 type Runner struct {
 	eng      string
+	front    string // "" | metrics | etcd (fronts.go)
+	srv      *etcd.RPCServer
 	b        backend.Backend
 	kv       *lib.Wrap
 	closer   func()
@@ -237,6 +240,8 @@ func (r *Runner) resume(who string) {
 func NewRunner(eng, scratch string) (*Runner, error) {
 	r := &Runner{eng: eng, parked: map[string]chan struct{}{}, parkedAt: map[string]string{}, arrive: make(chan string, 64), driverGo: lib.GoID()}
 	atomic.AddInt64(&curEpoch, 1)
+	r.front, eng = splitFront(eng)
+	r.eng = eng
 	inner, closer, err := lib.NewEngine(eng, scratch)
 	if err != nil {
 		return nil, err
@@ -246,7 +251,10 @@ func NewRunner(eng, scratch string) (*Runner, error) {
 	r.kv.CommitFault = r.commitFault
 	r.kv.Before = r.before
 	m := &lib.NopMetrics{Hook: r.metricHook}
-	r.b = backend.NewBackend(r.kv, backend.Config{Prefix: "/r", Identity: "c09"}, m)
+	r.b = backend.NewBackend(decorate(r.front, r.kv), backend.Config{Prefix: "/r", Identity: "c09"}, m)
+	if r.front == frontEtcd {
+		r.srv = newEtcdFront(r, &lib.NopMetrics{})
+	}
 	r.b.SetCurrentRevision(initRev)
 	r.dealt = initRev
 	ctx, cancel := context.WithCancel(context.Background())
@@ -450,7 +458,12 @@ func (r *Runner) Exec(st Step) (o Obs) {
 		r.inWrite = true
 		key := []byte(keyNames[st.Key])
 		var err error
-		switch st.Kind {
+		kind := st.Kind
+		if r.front == frontEtcd {
+			kind = "etcd"
+			err = r.etcdWrite(ctx, st, key, &o)
+		}
+		switch kind {
 		case "create":
 			var resp *proto.CreateResponse
 			resp, err = r.b.Create(ctx, &proto.CreateRequest{Key: key, Value: st.Val})
